@@ -14,9 +14,9 @@ META = {
                  "and through a FormatFS; the Open/Read log and outcome class are judged by a TLC Trace spec",
     "level": "model_checking",
     "level_text": "TLC checks, for every file graph of the space (quick: 3 layouts of 3 files at directory depths "
-                  "0-2 with <=3 references over 3 kinds x 5 path forms, every single reference over 38 path forms x "
-                  "4 kinds x 3 depths; thorough: 4 kinds x 8 path forms, 4-file layouts with <=4 references, "
-                  "5-reference render graphs, all pairs of valid path forms), that the transcribed expansion "
+                  "0-2 with <=3 references over 3 kinds x 4 path forms, every single reference over 38 path forms x "
+                  "4 kinds x 3 depths; thorough: 4 kinds x 5 path forms, 4-file layouts with <=4 references, "
+                  "<=5-reference render graphs, all pairs of valid path forms), that the transcribed expansion "
                   "algorithm terminates (depth <= number of files, step bound, eventually an outcome), opens only "
                   "valid rooted names explained by a reference of an opened file, never reads a file twice, reports "
                   "every reachable cycle and every reachable root-escaping reference as an error, and agrees with "
@@ -49,7 +49,7 @@ def case_of(o):
 def judge(ctx, step, obs_list):
     """Run Trace_Loader over the observations (sharded, shards in parallel). Returns (bads, drifts)."""
     n = len(obs_list)
-    nsh = max(1, min(NSHARD, n // 4000))
+    nsh = max(1, min(NSHARD, n // 800))
     size = (n + nsh - 1) // nsh if n else 1
     parts = [obs_list[k:k + size] for k in range(0, max(n, 1), size)]
 
@@ -140,7 +140,7 @@ def run(ctx, only_cases=None):
         if not (wd / "cases.ndjson").exists():
             raise Infra("no cases.ndjson exported by MC_Loader")
         shutil.copy(wd / "cases.ndjson", cases)
-        extra = ctx.pick(1500, 30000)
+        extra = ctx.pick(1500, 10000)
         ctx.cov["extra_random_cases"] = extra
     else:
         rig.write_ndjson(cases, only_cases)
